@@ -23,7 +23,7 @@ import (
 )
 
 var vocab = []string{"apple", "Apple", "APPLE", "moon", "dog", "dogs", "cat", "quick", "brown", "fox", "don't", "rock'n'roll", "o'clock", "x2", "42", "2024", "abc_def", "_id", "go", "a", "to", "is",
-	"café", "cafe", "résumé", "resume", "日本語", "日", "zebra", "lazy", "Moon", "über"}
+	"café", "cafe", "résumé", "resume", "日本語", "日", "zebra", "lazy", "Moon", "über", "don", "roll", "clock"}
 var separators = []string{" ", " ", " ", "  ", ", ", ". ", "-", "; ", "\t", " (", ") ", "! ", "/", " '", "' ", "\"", "+", "\n"}
 
 type collSpec struct {
